@@ -50,6 +50,15 @@ static int k_gemv(const case_t *c, rng_t *rng, csc_t *G, int gemm)
         }
         if (cint(c, "yzero", 0)) for (size_t i = 0; i < ny; ++i) if (rng_u01(rng) < 0.5) y[i] = MKE(0, 0);
     }
+    /* "When BETA is supplied as zero then Y (C) need not be set on input": with beta exactly zero and yunset != 0 the
+       whole y buffer holds NaN / Inf / huge values; the result must be alpha*op(A)*x all the same */
+    int yunset = (int)cint(c, "yunset", 0);
+    int beta_zero = (E2R(beta) == 0);
+    if (!beta_zero) yunset = 0;
+    if (yunset) {
+        real_t bad = yunset == 1 ? (real_t)NAN : yunset == 2 ? (real_t)INFINITY : yunset == 3 ? (real_t)-INFINITY : (real_t)(sizeof(real_t) == 4 ? 3.0e38 : 1.5e308);
+        for (size_t i = 0; i < ny; ++i) y[i] = MKE(bad, (i & 1) ? bad : (real_t)1.0);
+    }
     memcpy(y0, y, ny * sizeof(elem_t));
     uint64_t hA = csc_hash(G), hx = fnv(x, nx * sizeof(elem_t), FNV0);
     SuperMatrix A;
@@ -79,8 +88,8 @@ static int k_gemv(const case_t *c, rng_t *rng, csc_t *G, int gemm)
                 s += g * E2R(x[xi]); as += rabs(g) * rabs(E2R(x[xi]));
             }
             size_t yi = gemm ? (size_t)v * ldc + i : (size_t)(incy > 0 ? i * ay : (leny - 1 - i) * ay);
-            ref_t want = E2R(alpha) * s + E2R(beta) * E2R(y0[yi]);
-            ld bound = gam((ld)kmax + 3) * (rabs(E2R(alpha)) * as + rabs(E2R(beta)) * rabs(E2R(y0[yi]))) * (IS_COMPLEX ? 2 : 1)
+            ref_t want = E2R(alpha) * s + (beta_zero ? (ref_t)0 : E2R(beta) * E2R(y0[yi]));
+            ld bound = gam((ld)kmax + 3) * (rabs(E2R(alpha)) * as + (beta_zero ? (ld)0 : rabs(E2R(beta)) * rabs(E2R(y0[yi])))) * (IS_COMPLEX ? 2 : 1)
                        + 8 * (ld)(kmax + 3) * HX_UFL * (1 + rabs(E2R(alpha)));   /* underflowed products */
             ld e = rabs(E2R(y[yi]) - want);
             ld ratio = e == 0 ? 0 : (bound == 0 ? 1e300L : e / bound);
